@@ -10,21 +10,27 @@
   * `celestia_client` — `try_prepare`, `try_submit` (= broadcast, then poll `GetTx` for ever),
                         `confirm_submission_with_timeout`;
   * `mod.rs`, `read.rs` — `Relayer::run` start-up (`new_from_path`, reader starts at
-                        `last_completed + 1`), `BlockStream` (one fetch in flight, in order),
-                        forwarding of fetched blocks into the submitter's channel.
+                        `last_completed + 1`), `BlockStream` (one fetch in flight, in order,
+                        pause/resume), forwarding of fetched blocks into the submitter's channel
+                        (`try_send`, `forward_once_free` when its 128 slots are taken).
 
   One `Action` = one thing the *environment* does: let the one queued blocking file-system
   operation run (`fs`), answer the one held RPC of a kind (`fetch`, `bcast`, `gettx`), let time
-  pass (`wait`, `giveup`; `poll` = only the reader's latest-height poll runs, which in the real
-  system also happens while a Celestia RPC is held), move a transaction of the fake Celestia mempool (`include`, `drop`),
-  produce sequencer blocks (`bump`), kill the process (`crash`), start it (`restart`), leave a
-  partially written temp file behind (`corruptTmp`) and — not benign — overwrite the state
-  file (`tamperFile`).  Between two such actions the process runs until it blocks again
-  (`settle`): every `await` of the Rust code that needs the environment is a separate state.
+  pass (`wait` = until the submitter side sends its next Celestia RPC; `giveup` = a bounded
+  confirmation is answered "unknown" until it times out; `expire` = it times out between two
+  polls; `poll` = only the reader's latest-height poll runs, which in the real system also
+  happens while a Celestia RPC is held), move a transaction of the fake Celestia mempool
+  (`include`, `drop`), produce sequencer blocks (`bump`), kill the process (`crash`), start it
+  (`restart`), leave a partially written temp file behind (`corruptTmp`) and — not benign —
+  overwrite the state file (`tamperFile`).  Between two such actions the process runs until it
+  blocks again (`settle`): every `await` of the Rust code that needs the environment is a
+  separate state.
 
-  Not modelled: a block that does not fit the payload limit (`pending_block`, model and
-  theorems of C12, `Astria/Relayer/Loop.lean`), graceful shutdown, failing sequencer RPCs (they are retried without any state change),
-  durations (every timeout is an action the environment may take at any moment).
+  Not modelled: a block that does not fit the payload limit (`pending_block`; model and
+  theorems of C12, `Astria/Relayer/Loop.lean`), graceful shutdown, failing sequencer RPCs (they
+  are retried without any state change), a `BroadcastTx` response carrying another hash than the
+  locally computed one, durations (every timeout is an action the environment may take at any
+  moment; sleeping and retry delays are "until the next RPC").
 -/
 namespace Astria.RelayerCrash
 
